@@ -177,6 +177,29 @@ def writeDotIO (A : Arr) (names : List String) (pruned : Bool) (script : List Se
       let r := writeDotPieces (piecesOf (preamble A pruned ++ good.flatMap (nodeStmts A names pruned))) script
       if r.1 then .panic "index out of bounds: var_names[var]" else .ok r
 
+/-- a sink with a byte budget (`write` accepts what is left of the budget — a short write where it ends — and fails
+    with a hard error once nothing is left), driven by `write_all` piece by piece: an empty piece causes no call -/
+def budgetPieces : Nat → List (List UInt8) → Bool × List UInt8
+  | _, [] => (true, [])
+  | b, p :: ps =>
+    if p.length = 0 then budgetPieces b ps
+    else if p.length ≤ b then
+      let r := budgetPieces (b - p.length) ps
+      (r.1, p ++ r.2)
+    else (false, p.take b)
+
+/-- `write_as_dot_string` into a sink with a byte budget, in the order of the code (as `writeDotIO`) -/
+def writeDotBudget (A : Arr) (names : List String) (pruned : Bool) (budget : Nat) : Outcome (Bool × List UInt8) :=
+  if A.size = 0 then .panic "index out of bounds: the node vector is empty"
+  else if names.length ≠ numVars A then .panic "Bdd is incompatible with the variable set"
+  else
+    let good := namedPrefix A names
+    if good.length = (innerPtrs A).length then
+      .ok (budgetPieces budget (piecesOf (stmtsOf A names pruned)))
+    else
+      let r := budgetPieces budget (piecesOf (preamble A pruned ++ good.flatMap (nodeStmts A names pruned)))
+      if r.1 then .panic "index out of bounds: var_names[var]" else .ok r
+
 /-! ### reading the text back -/
 
 def stripPrefix : List Char → List Char → Option (List Char)
